@@ -219,6 +219,12 @@ def archetypes(tier, seed):
     s2 = {"left": bd("$"), "repeat": [[bd("$", "", 5), "OCC", bd("$", "", 1)]], "end": [], "right": bd("$"), "dist": dists[3]}
     s3 = {"left": bd("$"), "repeat": [[bd("$"), "NC", bd("$", "", 0.5)]], "end": [], "right": bd("$"), "dist": dists[1]}
     out.append({"elements": [["C"], s1, s2, s3, ["F"]], "archetype": "triblock-adjacent-objects"})
+    # more than 26 tokens in one molecule (the residue-name table has 26 letters)
+    many = [["C"]]
+    for _ in range(14):
+        many.append({"left": bd("$"), "repeat": [[bd("$"), "C", bd("$")]], "end": [], "right": bd("$"), "dist": "uniform(12, 30)"})
+        many.append(["O"])
+    out.append({"elements": many, "archetype": "more-than-26-tokens"})
     if tier == "thorough":
         for d1, d2 in itertools.product(dists[:4], dists[2:]):
             out.append(block(rng, d1, d2, connector=rng.choice([None, "CC", "COC"])))
